@@ -24,7 +24,7 @@ RULE = (
 )
 ASSUMPTIONS = [
     "strategies are configured so that no trading control other than the client's transaction control can refuse while the market is OPEN; requests made while it is not OPEN are refused by MarketValidation before the client control is reached (no hour check then)",
-    "concurrent completion of executions is explored at handler granularity on the live double (C12); the lock inside add_transaction is not reachable by generated schedules",
+    "concurrent completion of executions is explored at handler granularity: generated live schedules run queued execution tasks in any order (sub-check live); the lock inside add_transaction is not reachable by generated schedules",
 ]
 CHECKS = ("counters", "noeffect")
 
@@ -36,6 +36,7 @@ def hour_key(now):
 
 class World(SimWorld):
     def __init__(self, checks, cfg):
+        self.replace_live = {}
         super().__init__(checks, cfg)
         self.model = {}
         for cl in self.lab.clients:
@@ -45,18 +46,30 @@ class World(SimWorld):
     def client_of(self, strat):
         return self.lab.clients[strat.sspec.get("client", 0)]
 
+    def feed(self, step):
+        # instructions of a replace package = its orders that are not complete when it is executed (orders that
+        # completed while the request was in flight are not sent): statuses just before the update that executes it
+        for p in self.fw.handler_queue:
+            if p.package_type.name == "REPLACE":
+                self.replace_live[id(p)] = sum(1 for o in p._orders if o.status.name != "EXECUTION_COMPLETE")
+        super().feed(step)
+
     # independent recount of what the execution layer has processed for a client
     def shadow_total(self, client):
         queue = list(self.fw.handler_queue)
         tot = 0
         for p in self.lab.packages:
-            if p.client is not client or any(p is q for q in queue):
+            # the client an order belongs to is the one its strategy trades through (not whatever the order object says)
+            owner = self.client_of(p._orders[0].trade.strategy) if p._orders else p.client
+            if owner is not client or any(p is q for q in queue):
                 continue
             k = p.package_type.name
-            if k in ("PLACE", "REPLACE"):
+            if k == "PLACE":
                 tot += len(p._orders)
+            elif k == "REPLACE":
+                tot += self.replace_live.get(id(p), len(p._orders))
         for o in self.shadow_orders:
-            if o.client is client:
+            if self.client_of(o.trade.strategy) is client:
                 tot += sum(1 for r in o.responses.cancel_responses if r.status == "FAILURE")
                 tot += sum(1 for r in o.responses.update_responses if r.status == "FAILURE")
         return tot
@@ -163,10 +176,45 @@ def sub_machine(col, budget, seed, tier, shard, nshards):
     run_machine(col, make(), budget, 35 if tier == "quick" else 70, seed, tier, "counters", replay_fn=replay_fn)
 
 
+# ---- live world: executions finishing in any order (handler granularity) on the live double ---------------------
+
+
+def live_invariant(d, op):
+    from ..common import Violation
+
+    lab = d.lab
+    exp = sum(n for (name, tr, n) in lab.call_log if tr is None and name in ("placeOrders", "replaceOrders")) + sum(lab.reported_failed)
+    got = lab.client.transaction_count_total
+    if got != exp:
+        raise Violation("total-transaction-count", ("over" if got > exp else "under", "live"),
+                        "after %s: transaction_count_total %s, instructions submitted in answered calls + failed instructions reported %s (calls %s)" % (
+                            op["op"], got, exp, lab.call_log[-6:]), d.c)
+    d.classes.add("live-count-checked")
+    if len(lab.pool.queue) >= 2:
+        d.classes.add("several-executions-outstanding")
+        d.nontrivial = True
+
+
+def check_live(c):
+    from . import c11
+
+    return c11.check(c, after_op=live_invariant, convergence=False)
+
+
+def sub_live(col, budget, seed, tier, shard, nshards):
+    from ..common import run_given
+    from . import c11
+
+    run_given(col, c11.schedule(tier), check_live, budget, seed, tier, "live")
+
+
 def subchecks(tier):
     q = tier == "quick"
-    return [SubCheck("counters", sub_machine, 1200 if q else 40000)]
+    return [SubCheck("counters", sub_machine, 900 if q else 40000), SubCheck("live", sub_live, 3000 if q else 150000)]
 
 
 def replay(case, sub=None):
-    replay_trace(World, CHECKS, case)
+    if isinstance(case, dict) and "ops" in case:
+        check_live(case)
+    else:
+        replay_trace(World, CHECKS, case)
